@@ -181,6 +181,20 @@ def gen_case(rng, idx):
         else:
             v = rng.choice([0, 1, 3, 7, -4]) if o.get('integer') else rng.choice([0, 1, 2.5, 7, -4, 0.25])
         ops.append({'op': 'write', 'id': o['id'], 'value': v})
+        # the next value's first save fails once (transient storage error); the save loop has to retry it
+        if o['type'] == 'boolean':
+            v2 = not v
+        elif o.get('choices'):
+            v2 = rng.choice([x for x in (1, 2, 5) if x != v])
+        elif 'min' in o:
+            v2 = o['max'] if v == o['min'] else o['min']
+        else:
+            v2 = v + 1
+        fault = {'op': 'write_save_fault', 'id': o['id'], 'value': v2}
+        if rng.random() < 0.3:
+            ops.append(dict(fault))
+    else:
+        fault = None
     if with_slaves:
         for sim in rng.sample(SIMS, rng.choice([1, 1, 2])):
             ops.append({'op': 'add_slave', 'scheme': 'http', 'host': sim['host'], 'port': sim['port'], 'path': '/',
@@ -223,7 +237,17 @@ def gen_case(rng, idx):
             elif x < 0.5:
                 ops.append({'op': 'forward', 'name': name, 'method': 'PATCH', 'path': rng.choice(['/webhooks', '/reverse']),
                             'body': {'enabled': rng.random() < 0.5, 'host': rng.choice(['h', 'a"b']), 'port': 80, 'path': '/x'}})
-            elif x < 0.62:
+            elif x < 0.56:
+                # disable, then delete (the ports of a disabled slave are unloaded; their records must go too), often followed by
+                # adding the same device again after it lost a port
+                sim = SIMS[0] if name == 'slv1' else SIMS[1]
+                ops.append({'op': 'patch_slave', 'name': name, 'attrs': {'enabled': False}})
+                ops.append({'op': 'del_slave', 'name': name})
+                if rng.random() < 0.6:
+                    ops.append({'op': 'sim_drop_port', 'name': name, 'id': rng.choice([p['id'] for p in sim['ports']])})
+                    ops.append({'op': 'add_slave', 'scheme': 'http', 'host': sim['host'], 'port': sim['port'], 'path': '/',
+                                'admin_password': 'pw', 'poll_interval': 0, 'listen_enabled': False})
+            elif x < 0.66:
                 # a PATCH of which one attribute is refused after others were applied: listening together with polling,
                 # or listening asked from a device without listen support / that does not answer
                 if rng.random() < 0.5:
@@ -236,7 +260,7 @@ def gen_case(rng, idx):
                     {'enabled': True, 'poll_interval': 0, 'listen_enabled': True},
                 ])
                 ops.append({'op': 'patch_slave', 'name': name, 'attrs': dict(attrs)})
-            elif x < 0.8:
+            elif x < 0.82:
                 attrs = {}
                 for n in rng.sample(['enabled', 'poll_interval', 'listen_enabled'], rng.choice([1, 1, 2])):
                     attrs[n] = {'enabled': rng.random() < 0.5, 'poll_interval': rng.choice([0, 2, 2, 30]),
@@ -251,6 +275,8 @@ def gen_case(rng, idx):
                             'listen_enabled': None if sim['poll'] else False})
         else:
             ops.append({'op': 'sleep', 's': rng.choice([0.1, 1.0, 2.5])})
+    if fault is not None and rng.random() < 0.25:
+        ops.append(dict(fault, value=fault['value'] if rng.random() < 0.5 else ops[[i for i, x in enumerate(ops) if x['op'] == 'write'][0]]['value']))
     # idempotent re-submissions: the same request twice; the device backup just taken restored (PUT /device) with nothing after it
     for i in range(len(ops) - 1, -1, -1):
         if ops[i]['op'] in ('patch_port', 'patch_device', 'patch_slave', 'forward') and rng.random() < 0.08:
@@ -665,6 +691,9 @@ def model_tie(ctx, res, cases, results, name):
                     items.append('(LC %s %s %s %s)' % (c_str(sl['name']), coq.lst(stored_ids, c_str), coq.lst(own(before), c_str),
                                                       coq.lst(own(after), c_str)))
                     owners.append((ci, 'ports of slave', sl['name']))
+        for name in deleted_ids(case, r['log'])[1]:
+            items.append('(GC %s %s)' % (c_str(name), coq.lst(stored_ids, c_str)))
+            owners.append((ci, 'records of deleted slave', name))
         # live sets over the history
         hops = hub_ops(case, r['log'])
         items.append('(HC %s %s %s %s %s %s)' % (
@@ -722,6 +751,9 @@ def hub_ops(case, log):
             out.append('ORemovePort %s' % c_str(op['id']))
         elif op['op'] == 'patch_port' and '.' not in op['id']:
             out.append('OSetAttr %s' % c_str(op['id']))
+        elif op['op'] == 'write_save_fault' and len(r) > 3 and r[3].get('save_failed'):
+            out.append('OWriteValue %s' % c_str(op['id']))
+            out.append('OSaveFailed %s' % c_str(op['id']))
         elif op['op'] == 'add_slave':
             out.append('OAddSlave %s' % c_str('slv1' if op['host'] == 'dev1' else 'slv2'))
         elif op['op'] == 'patch_slave':
@@ -746,6 +778,11 @@ def describe(op):
         return 'PATCH /ports/%s/value %s' % (op['id'], json.dumps(op['value']))
     if k == 'patch_device':
         return 'PATCH /device %s' % json.dumps(op['attrs'])
+    if k == 'write_save_fault':
+        return 'PATCH /ports/%s/value %s; the first attempt of the save loop to store the port fails once (transient storage error)' % (
+            op['id'], json.dumps(op['value']))
+    if k == 'sim_drop_port':
+        return 'device %s no longer has port %s' % (op['name'], op['id'])
     if k == 'put_device_backup':
         return 'GET /device, then PUT /device with the document just received'
     if k == 'add_slave':
@@ -914,7 +951,8 @@ def check(ctx, res):
     m = ctx.n(10, 200)
     cases = [gen_case(ctx.rng, 200000 + i) for i in range(m)]
     first = run_worker(ctx, cases, 'json-file', phase='first', tag='p1')
-    second = run_worker(ctx, cases, 'json-file', phase='second', tag='p2')
+    second = run_worker(ctx, [dict(c, sims=a.get('sims_state') or c['sims']) for c, a in zip(cases, first)], 'json-file',
+                        phase='second', tag='p2')
     merged = [dict(a, loaded=b.get('loaded'), after=b.get('after'), error=a.get('error') or b.get('error')) for a, b in zip(first, second)]
     account(res, cases, merged)
     report(ctx, res, cases, merged, 'json-file', do_shrink=False)
